@@ -30,6 +30,8 @@ pub fn family_roots() -> Vec<(&'static str, &'static str)> {
         ("castling-ep", "r3k2r/8/8/3pP3/8/8/8/R3K2R w KQkq d6 0 1"),
         ("mate-net", "6k1/5ppp/8/8/8/8/5PPP/3R2K1 w - - 0 1"),
         ("KQk-mate-in-1", "7k/5Q2/6K1/8/8/8/8/8 w - - 0 1"),
+        // the en-passant capture is the best move (it forks two knights); the family contains the twin without the opportunity
+        ("ep-is-best", "4k3/2n1n3/8/3pP3/8/8/8/6K1 w - d6 0 1"),
     ]
 }
 
@@ -86,7 +88,9 @@ pub fn family(root_fen: &str) -> Vec<RootSpec> {
         let mut q = p;
         q.rights = 0;
         v.push(RootSpec::fen(&q.fen6(false)));
-    } else if p.ep.is_some() {
+    }
+    // the same placement without the en-passant opportunity (a different position with a near-identical table neighbourhood)
+    if p.ep.is_some() {
         let mut q = p;
         q.ep = None;
         v.push(RootSpec::fen(&q.fen6(false)));
